@@ -7,9 +7,12 @@ from ..gen import Gen, strict_eq
 ID = 'C19'
 LEAN_TARGETS = ['Properties.C19']
 THEOREMS = ['Dist.C19_numbers', 'Dist.C19_typed_range', 'Dist.C19_typed_zero',
-            'Dist.C19_time_zero', 'Dist.C19_time_microseconds', 'Dist.C19_N_datetime_vs_date', 'Dist.C19_dispatch_order']
+            'Dist.C19_time_zero', 'Dist.C19_time_microseconds', 'Dist.C19_N_datetime_vs_date', 'Dist.C19_dispatch_order',
+            'Dist.C19_item_length_le_count', 'Dist.C19_rough_length_is_hash_count', 'Dist.C19_deep_distance_nested_dicts', 'Dist.C19_N_deep_distance_exceeds_one',
+            'Dist.C19_N_uncounted_leaves']
 RULE = ('(a) pairs of ints / short decimals / Decimals (0, negatives, opposite signs, equal values) x maxima: real _get_numbers_distance vs the exact '
-        'rational model; (b) datetimes, dates, timedeltas, times; (c) deep_distance of generated nested pairs x ignore_order x view x cutoff. '
+        'rational model; (b) datetimes, dates, timedeltas, times; (c) deep_distance of generated nested pairs x ignore_order x view x cutoff, '
+        'and, in the ordered mode on the model universe, the reported number vs the model (numerator _get_item_length of the delta payload, denominator the two DeepHash counts). '
         'distinct = distinct (a, b, max) or (t1, t2, config); non-trivial = operands differ')
 TRUSTED_BASE = ['IEEE-754 rounding, float overflow and int->float conversion are outside the rational model (results compared within 1e-9 relative)']
 ASSUMPTIONS = ['deep_distance clauses are decided on the implementation only in this revision (the delta-view/DeepHash-count model is not built yet)',
@@ -187,6 +190,8 @@ def deep_wit():
         'F13b': lambda: DeepDiff([1, 2, 3, 4], [1, 3, 4, 5, 6], **GDD).get('deep_distance', 0) > 0,
         'F17a': lambda: DeepDiff({'a': 1}, {'a': 1, 'b': None}, **GDD).get('deep_distance', 0) > 0,
         'F17b': lambda: DeepDiff([1], [1, []], **GDD).get('deep_distance', 0) > 0,
+        'F17c': lambda: DeepDiff([1, 2], [1, 2, {'_a': 5}], **GDD).get('deep_distance', 0) > 0,
+        'F60': lambda: 0 < DeepDiff({'k': 1}, {'k': {b'a': 1}}, **GDD).get('deep_distance', 0) <= 1,      # repaired
     }
 
 
@@ -229,6 +234,52 @@ def part_root_numbers(ctx):
                 ctx.violate(case, 'different numbers but deep_distance = %r' % d)
 
 
+def part_deep_model(ctx):
+    """correspondence for deep_distance in the ordered mode: the model's numerator (_get_item_length of the delta payload) over its denominator
+    (the two DeepHash counts) is the number DeepDiff reports, on pairs of the model universe (incl. keys with a leading underscore, None and empty containers)"""
+    from deepdiff import DeepDiff
+    from . import _difffam as FAM
+    from ..diffing import thr_frac
+    from ..wire import val_tokens, OutOfUniverse
+    n = 1200 if ctx.thorough() else 160
+    pairs = FAM.gen_pairs(ctx, n, keys=FAM.KEYS_C03 + ['_p', '_', 'new_path', 'deep_distance', '__x'])
+    pairs += [([1, 2], [1, 2, {'_a': 5}]), ({'a': 1}, {'a': 1, 'b': None}), ([1], [1, []]), ([1, 2, 3, 4], [1, 3, 4, 5, 6]), ([1, 2, 3], ['a', 'b', 'c']), ({'k': {'_p': [1, 2], 'q': 1}}, {'k': 5}),
+              ({'new_path': [1, 2]}, {'new_path': [1, 3], 'deep_distance': 'x'}), ({'__x': [1, 2, 3], 'a': 1}, {'__x': [4], 'a': 2}), ({'s': {1, 2}}, {'s': {2, 3, (4, 5)}})]
+    lines, metas = [], []
+    for (t1, t2) in pairs:
+        if all(isinstance(v, (int, float)) for v in (t1, t2)):
+            continue                                  # two numbers: the number distance (NDIST)
+        zip_ = ctx.rng.random() < 0.3
+        thr = ctx.rng.choice([0, 0.33, 0.9])
+        case = {'kind': 'deep-model', 't1': repr(t1), 't2': repr(t2), 'cfg': {'zip_ordered_iterables': zip_, 'threshold_to_diff_deeper': thr}}
+        ctx.evaluations += 1
+        try:
+            dd = DeepDiff(t1, t2, get_deep_distance=True, zip_ordered_iterables=zip_, threshold_to_diff_deeper=thr)
+        except Exception as e:
+            ctx.count('deep_model_raised:' + type(e).__name__); continue
+        d = dd.get('deep_distance', 0)
+        try:
+            tn, td = thr_frac(thr)
+            lines.append('DDIST %s %d %d %s %s' % ('T' if zip_ else 'F', tn, td, ' '.join(val_tokens(t1)), ' '.join(val_tokens(t2))))
+            metas.append((case, d))
+        except OutOfUniverse:
+            ctx.count('deep_model_out_of_universe')
+        if not strict_eq(t1, t2):
+            ctx.nontriv((repr(t1), repr(t2), zip_, thr, 'deep-model'))
+    if ctx.build_ok and lines:
+        ans = core.run_model(lines)
+        for (case, d), m in zip(metas, ans):
+            ctx.traces += 1
+            try:
+                a, b = m.split(' ')
+                want = 0 if int(a) == 0 else int(a) / int(b)
+            except Exception:
+                ctx.diverge(case, repr(d), m, op='DDIST'); continue
+            ctx.count('deep_model:' + ('zero' if int(a) == 0 else 'positive'))
+            if want != d:
+                ctx.diverge(case, repr(d), '%s (= %r)' % (m, want), op='DDIST')
+
+
 def part_deep(ctx):
     from deepdiff import DeepDiff
     g = Gen(ctx.rng, keys=['a', 'b', 'c', 'dd', 'k1'], max_depth=3, max_width=4, bytes_=True)
@@ -237,9 +288,13 @@ def part_deep(ctx):
                   datetime.time(1, 2, 3), datetime.time(4, 5, 6), datetime.timedelta(1), datetime.timedelta(seconds=90), decimal.Decimal('1.5'), decimal.Decimal('7.25')]
     n = 2500 if ctx.thorough() else 350
     gflat = Gen(ctx.rng, scalars=[0, 1, 2, 3, 4, 5, 6, 7, 8, 9, 'a', 'b'], kinds=('list',), max_depth=1, max_width=7, p_leaf=0)
+    fixed = [({'k': 1}, {'k': {b'a': 1}}), ([1], [1, {b'x': 2}]), ([{'k': 1}, 5], [5, {'k': {b'a': [1, 2]}}]), ({'k': {b'_p': 1}}, {'k': {b'_p': 2, b'q': 3}}),
+             ({'a': (1, 2)}, {'a': (1, 2, {b'': None})})]
     for i in range(n):
         t1 = g.container()
         t2 = copy.deepcopy(t1) if ctx.rng.random() < 0.12 else g.edits(t1, ctx.rng.randint(1, 3))
+        if i < len(fixed):
+            t1, t2 = fixed[i]                 # values that arrive in the payload with dictionaries keyed by bytes (repaired finding F60)
         if i % 5 == 2:
             # short flat sequences with an item inserted at one end and / or removed at the other (the difflib pass wins and its opcodes are kept for Delta)
             base = ctx.rng.sample(range(1, 30), ctx.rng.randint(3, 7))
@@ -265,6 +320,11 @@ def part_deep(ctx):
                 delta = plain._to_delta_dict(report_repetition_required=False) if plain else {}
             except Exception as e:
                 ctx.count('deep_raised:' + type(e).__name__)
+                try:
+                    DeepDiff(t1, t2, **cfg)
+                except Exception:
+                    continue                      # the comparison itself fails on this input (totality is C11's subject)
+                ctx.violate(case, 'get_deep_distance=True makes DeepDiff raise %s: %s' % (type(e).__name__, str(e)[:100]))
                 continue
             d = dd.get('deep_distance') if 'deep_distance' in dd else None
             cats = set(dd.keys()) - {'deep_distance'}
@@ -301,6 +361,7 @@ def run(ctx, impl_only=False):
     wit = part_typed(ctx)
     part_root_numbers(ctx)
     part_deep(ctx)
+    part_deep_model(ctx)
     wit.update(deep_wit())
     findings = {f['id']: f for f in core.load_findings(ID) if f.get('status') == 'open'}
     for fid, fn in wit.items():
